@@ -778,6 +778,7 @@ type specEnv struct {
 	lets    map[string]ast.Expr
 	depth   int
 	nbound  int // number of enclosing quantifiers
+	cells   map[string]T // captured variables (go/ssa free variables are cells): dereferenced in the state of use
 }
 
 // wf assumes the heap well-formedness facts (allocation bound, ranges) of a value read in a spec.
@@ -808,7 +809,25 @@ func (f *frame) specEnv(cur *State) *specEnv {
 		}
 		for _, fv := range f.fn.FreeVars {
 			if t, ok := f.vals[fv]; ok {
+				// go/ssa captures variables by reference: the name denotes the captured variable's value in the
+				// state the expression is evaluated in (so that old(x) is the value at entry)
+				if pt, isP := fv.Type().(*types.Pointer); isP {
+					if _, isS := pt.Elem().Underlying().(*types.Struct); !isS {
+						if env.cells == nil {
+							env.cells = map[string]T{}
+						}
+						env.cells[fv.Name()] = t
+						env.cells["v_"+fv.Name()] = t
+						continue
+					}
+				}
 				env.vars[fv.Name()] = t
+				env.vars["v_"+fv.Name()] = t // alias for names that clash with spec keywords (result, old, ...)
+			}
+		}
+		for _, p := range f.fn.Params {
+			if t, ok := f.vals[p]; ok {
+				env.vars["v_"+p.Name()] = t
 			}
 		}
 		// phis and named values by their source names
@@ -858,6 +877,14 @@ func (env *specEnv) bind(name string, t T) *specEnv {
 		n.vars[k] = v
 	}
 	n.vars[name] = t
+	if _, shadow := env.cells[name]; shadow {
+		n.cells = map[string]T{}
+		for k, v := range env.cells {
+			if k != name {
+				n.cells[k] = v
+			}
+		}
+	}
 	return &n
 }
 
@@ -996,6 +1023,11 @@ func (env *specEnv) eval(x ast.Expr) (T, error) {
 		if t, ok := env.vars[x.Name]; ok && !(x.Name == "result" && len(env.results) > 0) {
 			return t, nil
 		}
+		if c, ok := env.cells[x.Name]; ok && !(x.Name == "result" && len(env.results) > 0) {
+			pt := c.Go.(*types.Pointer)
+			srt := e.sortOf(pt.Elem())
+			return T{"(select " + e.H(env.cur, "P_"+sanitize(srt), "(Array Int "+srt+")") + " " + c.S + ")", srt, pt.Elem()}, nil
+		}
 		if x.Name == "result" {
 			if len(env.results) == 0 {
 				return T{}, fmt.Errorf("no result here")
@@ -1064,7 +1096,8 @@ func (env *specEnv) eval(x ast.Expr) (T, error) {
 		return T{"(select " + e.H(env.cur, "P_"+sanitize(srt), "(Array Int "+srt+")") + " " + a.S + ")", srt, pt.Elem()}, nil
 	case *ast.SelectorExpr:
 		if id, ok := x.X.(*ast.Ident); ok {
-			if _, isVar := env.vars[id.Name]; !isVar {
+			_, isCell := env.cells[id.Name]
+			if _, isVar := env.vars[id.Name]; !isVar && !isCell {
 				if _, isLet := env.lets[id.Name]; !isLet {
 					if p := env.lookupPkg(id.Name); p != nil {
 						obj := p.Scope().Lookup(x.Sel.Name)
@@ -1414,11 +1447,17 @@ func (env *specEnv) call(x *ast.CallExpr) (T, error) {
 		}
 		return T{f.chClosed(a.S, env.cur), "Bool", boolT}, nil
 	case "excl", "held":
+		// excl(m): exclusive access to the state guarded by m (lock held, or own unshared allocation);
+		// held(m): m is locked by this thread
 		a, err := env.eval(x.Args[0])
 		if err != nil {
 			return T{}, err
 		}
-		return T{"(select " + e.H(env.cur, "EXCL", "(Array Int Bool)") + " " + a.S + ")", "Bool", boolT}, nil
+		hn := "EXCL"
+		if name == "held" {
+			hn = "HELD"
+		}
+		return T{"(select " + e.H(env.cur, hn, "(Array Int Bool)") + " " + a.S + ")", "Bool", boolT}, nil
 	case "indom":
 		if err := argN(2); err != nil {
 			return T{}, err
@@ -1569,6 +1608,25 @@ func (env *specEnv) call(x *ast.CallExpr) (T, error) {
 		e.declFun("sliceset_"+sanitize(es), []string{"(Array Int " + es + ")", "Int", "Int"}, "(Array "+es+" Bool)")
 		e.slicesetAxioms(es)
 		return T{"(select (sliceset_" + sanitize(es) + " (select " + e.H(env.cur, h, hs) + " (sarr " + sv.S + ")) (soff " + sv.S + ") (slen " + sv.S + ")) " + xv.S + ")", "Bool", boolT}, nil
+	case "strictinc":
+		// strictinc(s): the elements of s are strictly increasing (pairwise, over absolute array positions so that
+		// the quantifier has arithmetic-free patterns)
+		a, err := env.eval(x.Args[0])
+		if err != nil {
+			return T{}, err
+		}
+		stp, ok := a.Go.Underlying().(*types.Slice)
+		if !ok || a.Sort != "Slice" {
+			return T{}, fmt.Errorf("strictinc of non-slice")
+		}
+		h, hs := f.elemHeap(stp.Elem())
+		if h == "" || e.sortOf(stp.Elem()) != "Int" {
+			return T{}, fmt.Errorf("strictinc: unsupported element type")
+		}
+		e.nfresh++
+		pv, qv := fmt.Sprintf("p!q%d", e.nfresh), fmt.Sprintf("q!q%d", e.nfresh)
+		arr := "(select " + e.H(env.cur, h, hs) + " (sarr " + a.S + "))"
+		return T{"(forall ((" + pv + " Int) (" + qv + " Int)) (! (=> (and (<= (soff " + a.S + ") " + pv + ") (< " + pv + " " + qv + ") (< " + qv + " (+ (soff " + a.S + ") (slen " + a.S + ")))) (< (select " + arr + " " + pv + ") (select " + arr + " " + qv + "))) :pattern ((select " + arr + " " + pv + ") (select " + arr + " " + qv + "))))", "Bool", boolT}, nil
 	case "idsval":
 		// abstract value of a slice of identifiers (contents, not the array identity)
 		a, err := env.eval(x.Args[0])
@@ -1769,7 +1827,7 @@ func (env *specEnv) call(x *ast.CallExpr) (T, error) {
 			w0 = e.H(f.root.entrySt, "W", "Int") // locals allocated by this activation are not observable
 		}
 		for _, n := range names {
-			if n == "W" || n == "EXCL" || strings.HasPrefix(n, "LAST_") || strings.HasPrefix(n, "CALLED_") || strings.HasPrefix(n, "COUNT_") || strings.HasPrefix(n, "ARGS_") || strings.HasPrefix(n, "VIS_") || strings.HasPrefix(n, "LASTB_") {
+			if n == "W" || n == "EXCL" || n == "HELD" || strings.HasPrefix(n, "LAST_") || strings.HasPrefix(n, "CALLED_") || strings.HasPrefix(n, "COUNT_") || strings.HasPrefix(n, "ARGS_") || strings.HasPrefix(n, "VIS_") || strings.HasPrefix(n, "LASTB_") {
 				continue
 			}
 			if e.ver(base, n) == e.ver(env.cur, n) {
